@@ -70,7 +70,10 @@ def build_session(rng, tmp, kind, metric, thorough, lattice=None):
     far = X.mean(0) + (np.array([[60.0, 45.0], [-35.0, 80.0]]) if X.shape[1] == 2 else 50.0)
     if np.all(X >= 0):
         far = np.abs(far) + 0.25
-    allq = np.vstack([Q, X, far])
+    # ... and a sample of magnitude 1e200, finite itself, whose squared differences overflow: every distance from it is infinite. Whatever
+    # label such a sample gets, it gets it at every position of every batch
+    huge = np.full((1, X.shape[1]), 1e200)
+    allq = np.vstack([Q, X, far, huge])
     m = len(allq)
     for rnd in range(rng.randrange(6, 14 if thorough else 9)):
         c = rng.random()
